@@ -140,7 +140,7 @@ def run_tlc_export(name, module, cfgpath, outdir, tier, asan_stride, tlc_workers
     apool = Pool(exe_asan, nasan, outdir, "asan", env=vlib.ASAN_ENV, args=driver_args)
     meta = os.path.join(outdir, "tlc_meta")
     shutil.rmtree(meta, ignore_errors=True)
-    cmd = ["java", "-XX:+UseParallelGC", "-Xmx12g", "-cp", vlib.TLA_CP, "tlc2.TLC", "-workers", str(tlc_workers or 8),
+    cmd = ["java", "-XX:+UseParallelGC", "-Xmx12g" if tier == "quick" else "-Xmx30g", "-cp", vlib.TLA_CP, "tlc2.TLC", "-workers", str(tlc_workers or 8),
            "-metadir", meta, "-config", cfgpath, "-fp", str(SEED % 120)]
     if simulate:
         cmd += ["-simulate", simulate, "-depth", str(depth), "-seed", str(SEED)]
@@ -471,7 +471,7 @@ def fam_life(tier, outdir):
     consts = {"Handles": "{1}", "MaxTime": 1, "MaxCalls": 5, "PipeCap": 4, "MaxOut": 2, "ExitCodes": "{3}", "TermDelay": 1,
               "Depth": '"small"'}
     if tier == "thorough":
-        consts.update({"MaxCalls": 6, "Depth": '"full"', "MaxTime": 2})
+        consts.update({"MaxCalls": 5, "Depth": '"full"', "MaxTime": 2})   # (6 calls: > 10 M states with the interrupt / descendant actions, does not finish in an hour)
     cfg = os.path.join(outdir, "MC_Life.cfg")
     write_cfg(cfg, "Spec", consts, ["TypeOK", "LifeChild", "Conservation"], props=["LifeOrder"], export_stride=3 if tier == "quick" else 1)
     res = run_tlc_export("life", "MC_Life", cfg, outdir, tier, asan_stride=4 if tier == "quick" else 16)
